@@ -587,7 +587,7 @@ Definition oneof_find_spec (cmp : schema -> gval -> outcome unit) (types : list 
                    | None => Err (cerr EKey)
                    | Some (_, member) =>
                        let clone := VMap t_str_map false (if inlined then kvs else smap_del field kvs) in
-                       _ <- rewrap true (cmp member clone) ;; Ok (key, member, clone)
+                       _ <- rewrap_path (cmp member clone) ;; Ok (key, member, clone)
                    end
                end
       end
@@ -622,12 +622,12 @@ Proof.
     destruct (typed_discr ik d) as [key0|] eqn:Ek; [|discriminate H].
     destruct (find (fun ks => okey_eqb (fst ks) key0) types) as [[k0 member0]|] eqn:Ef; [|discriminate H].
     cbv zeta in H. apply bind_ok in H. destruct H as (u0 & Hc & H). inversion H; subst. clear H.
-    apply rewrap_ok in Hc. apply unit_ok in Hc.
+    apply (proj1 (rewrap_path_ok _ _)) in Hc. apply unit_ok in Hc.
     exists kvs, d, k0. split; [reflexivity|]. split; [exact Ed|].
     split; [intros C; subst d; discriminate En|]. split; [exact Ek|]. split; [exact Ef|]. split; [reflexivity | exact Hc].
   - intros (kvs' & d & k0 & E & Ed & Hn & Ek & Ef & Ed' & Hc). inversion E; subst kvs'. rewrite Ed.
     assert (En : is_nil d = false) by (destruct d; try reflexivity; contradiction). rewrite En, Ek, Ef.
-    cbv zeta. subst d'. apply bind_ok. exists tt. split; [apply rewrap_ok; exact Hc | reflexivity].
+    cbv zeta. subst d'. apply bind_ok. exists tt. split; [apply rewrap_path_ok; exact Hc | reflexivity].
 Qed.
 
 Lemma validate_oneof_iff f e types ik field inlined v :
